@@ -406,12 +406,14 @@ PROPS = {
                        "iterator adapters outside Verus): label order, equality and hash coherence and the RFC 4034 label order, "
                        "complete up to the 63-octet limit in the thorough tier; Record Eq/Hash coherence over all classes, TTLs "
                        "and A data.",
-        "not_covered": "The relative-name versions of the comparison methods "
-                       "(ToRelativeName), the iterators themselves (iter_labels/as_flat_slice of Name, ParsedName, Chain are assumed "
+        "not_covered": ""
+                       "The iterators themselves (iter_labels/as_flat_slice of Name, ParsedName, Chain are assumed "
                        "to enumerate labels() -- ParsedName's iterator is under contract in C01's unit nameparse), CharStr's PartialOrd / Ord / Hash (iterator adapters: assumed in unit charstr, bounded Kani harness on the "
                        "compiled code; its ==, canonical_cmp, 255-octet invariant, parse and compose are under contract, as is HINFO), canonical "
                        "ordering of record data of the other types versus canonical wire form (macro-generated per type), Eq/Ord/Hash of Record beyond "
-                       "the Kani harness (generic operator calls), Question.",
+                       "the Kani harness (generic operator calls), Hash of Question (delegates to the name's Hash: unit namehash). "
+                       "ToRelativeName::{name_eq, name_cmp} and Question's ==, partial_cmp, cmp and canonical_cmp (real text, unit nameorder: name "
+                       "first, then type, then class; == exactly when the order says Equal) are under contract.",
         "assumptions": [
             "<[u8]>::eq_ignore_ascii_case (core): same length and octets equal after ASCII lower-casing",
             "<[u8] as Ord>::cmp / PartialOrd::partial_cmp (core): left-justified octet-string order (axiom_slice_cmp_octets)",
@@ -611,7 +613,7 @@ PROPS = {
                        "header is refused. The configured timeout (unit streamcfg, real text of stream::Config and utils::config::DefMinMax): after "
                        "set_response_timeout(t) the timeout in effect, the one installed for single-response requests and the streaming one are all t trimmed "
                        "to 1 ms..600 s (this contract exposed D53).",
-        "not_covered": "Everything else about delivery: question-by-question equality inside is_answer rests on Question's == (names: C04), the header-only error reply rule of the transports (the acceptance test itself, RequestMessage::is_answer, is under contract in unit sections; the datagram transport is proved to apply it to everything it hands out, the stream transports are not), exactly-once completion, "
+        "not_covered": "Everything else about delivery: question-by-question equality inside is_answer rests on Question's == (under contract in C04's unit nameorder: same name up to ASCII case, same type, same class), the header-only error reply rule of the transports (the acceptance test itself, RequestMessage::is_answer, is under contract in unit sections; the datagram transport is proved to apply it to everything it hands out, the stream transports are not), exactly-once completion, "
                        "the redundant and load-balancing transports, multi_stream's reconnection logic, real sockets and real-time scheduling (async tasks "
                        "over tokio; schedules are outside contract-based verification -- the datagram transport's receive loop and the truncation fallback "
                        "are explored natively under a virtual clock, see the searches, not proved).",
